@@ -168,8 +168,9 @@ pub fn for_property(prop: &str) -> Vec<Family> {
             f("mix-kick", "sync/try_sync callers and wakers racing with pool threads going dormant", g_kick, Q / 4, T / 4),
         ],
         "C13" => vec![
-            f("suspend", "suspend, later scheduling calls, resume or drop of the resumer from any thread", g_suspend, Q * 3 / 4, T * 3 / 4),
+            f("suspend", "suspend, later scheduling calls, resume or drop of the resumer from any thread", g_suspend, Q * 5 / 8, T * 5 / 8),
             f("suspend-saturated", "every pool thread stalled: one context suspends and resumes, others sync during the suspension and must complete after it", gen_suspend_saturated, Q / 4, T / 4),
+            sw("resume-sweep", "the resumer used or dropped at every scheduling point of the context that holds the suspension (a pool thread, or a sync caller that took the suspended queue over with the pool stalled)", gen_resume_sweep, Q / 8, T / 8, 48),
         ],
         _ => vec![],
     }
@@ -199,6 +200,7 @@ pub fn required_probes(prop: &str) -> &'static [&'static str] {
         "C12" => &["out_pending", "stream_pending", "depth_changes", "sweep_injections_fired", "pipe_backpressure"],
         "C15" => &["panics_injected", "panic_on_pool", "panic_on_caller", "calls_on_panicked"],
         "C16" => &["sweep_injections_fired", "kept_wakers"],
+        "C13" => &["sweep_injections_fired"],
         "C17" => &["pool_threads_spawned"],
         "C14" => &["fsync_drop_mid", "drops_by_pool", "try_busy"],
         _ => &[],
